@@ -227,11 +227,6 @@ def platform_tags(archs: Sequence[str]) -> Iterator[str]:
     """
     if not _have_compatible_abi(sys.executable, archs):
         return
-    # Oldest glibc to be supported regardless of architecture is (2, 17).
-    too_old_glibc2 = _GLibCVersion(2, 16)
-    if set(archs) & {"x86_64", "i686"}:
-        # On x86/i686 also oldest glibc to be supported is (2, 5).
-        too_old_glibc2 = _GLibCVersion(2, 4)
     current_glibc = _GLibCVersion(*_get_glibc_version())
     glibc_max_list = [current_glibc]
     # We can assume compatibility across glibc major versions.
@@ -244,6 +239,11 @@ def platform_tags(archs: Sequence[str]) -> Iterator[str]:
         glibc_minor = _LAST_GLIBC_MINOR[glibc_major]
         glibc_max_list.append(_GLibCVersion(glibc_major, glibc_minor))
     for arch in archs:
+        # Oldest glibc to be supported regardless of architecture is (2, 17).
+        too_old_glibc2 = _GLibCVersion(2, 16)
+        if arch in {"x86_64", "i686"}:
+            # On x86/i686 also oldest glibc to be supported is (2, 5).
+            too_old_glibc2 = _GLibCVersion(2, 4)
         for glibc_max in glibc_max_list:
             if glibc_max.major == too_old_glibc2.major:
                 min_minor = too_old_glibc2.minor
